@@ -3,7 +3,8 @@ import ast
 
 from .. import guards, rules, typestate
 from ..model import AnalysisError, call_name, loc, unparse, body_stmts
-from ..rules import family_views, witness
+from ..rules import family_views, witness, listop
+from ..paths import Walker
 
 EXPLANATION = (
     "Static analysis: choose_next_customer scans self.individuals in index order (ascending priority class), filters the customers without server and "
@@ -17,12 +18,13 @@ RULE = "instances = the chooser, the three disciplines, list-insertion sites and
 
 def check(ctx):
     P = ctx.program
-    iters = (0, 1, 2) if ctx.tier == "thorough" else (0, 1)
+    iters = (0, 1)
     views = family_views(P, "Node")
     chooser(ctx, P, views)
     disciplines(ctx, P)
     insertion(ctx, P)
     start_sites(ctx, P, views, iters)
+    moves(ctx, P, views, iters)
     ctx.assume("built-in disciplines (FIFO/LIFO/SIRO); custom disciplines are excluded by the property")
 
 
@@ -129,3 +131,49 @@ def start_sites(ctx, P, views, iters):
                 done.add((method, reason))
                 ctx.violation(ob, "R13.start-provenance", method, e.text, reason, "%s [reached from %s]" % (msg, s["root"]), e.where, witness(s["state"], 16))
     ctx.floor("service start events", n, 6)
+
+
+def moves(ctx, P, views, iters):
+    """a customer already at the node is re-appended (moved) only when its priority class really changed; otherwise it would
+    lose its place in the arrival order of its class"""
+    ob = ctx.ob("MOVE", "re-queuing inside individuals[*] (remove + append of the same customer) happens only under priority_class != prev_priority_class")
+    done = set()
+    n = 0
+    for view in views:
+        for m in view.methods():
+            if m == "__init__" or rules.is_private_helper(P, view, m):
+                continue
+            cls, fn = view.resolve(m)
+            if m not in rules.ROOT_HANDLERS and not any(isinstance(x, ast.Attribute) and x.attr == "individuals" for x in ast.walk(fn)):
+                continue
+
+            def keep(e):
+                if e.kind == "guard":
+                    return "priority_class" in e.text
+                if e.kind == "call":
+                    lo = listop(e)
+                    return bool(lo and lo[1] == "self" and lo[2] == "individuals")
+                return False
+            w = Walker(P, view, keep=keep, track=lambda t, f: "priority_class" in unparse(t), inline=lambda ev: ev.d["meth"] not in ("release_blocked_individual",), loop_iters=iters)
+            for st in w.paths_of(cls, fn):
+                if st.status == "raise":
+                    continue
+                removed = {}
+                for i, e in enumerate(st.events):
+                    if e.kind != "call":
+                        continue
+                    lo = listop(e)
+                    tok = lo[4][-1] if lo[4] else "?"
+                    if lo[0] == "rem":
+                        removed[tok] = i
+                    elif lo[0] == "ins" and tok in removed:
+                        n += 1
+                        facts = rules.path_condition(st.events, removed[tok])
+                        changed = [v for a, v in facts.items() if a[0] == "eq" and set(x.split(".")[-1] for x in a[1:]) == {"priority_class", "prev_priority_class"} and all(x.startswith(tok + ".") for x in a[1:])]
+                        ob.ok("%s:%s" % (e.frame.qual, m), "%s (from %s): move of %s under %s" % (e.frame.qual, m, tok, [x.text for x in st.events[:removed[tok]] if x.kind == "guard"]))
+                        if (not changed or changed[0] is not False) and (e.frame.qual, m) not in done:
+                            done.add((e.frame.qual, m))
+                            ctx.violation(ob, "R1.tail-insertion", "%s.%s" % (cls.name, m), "move of %s within individuals" % tok.split("__")[0], "requeued-without-priority-change",
+                                          "%s is removed from and re-appended to the customer lists although its priority class has not (provably) changed: it goes to the back of its own class and "
+                                          "loses its arrival order [via %s]" % (tok.split("__")[0], e.frame.qual), e.where, witness(st))
+    ctx.floor("re-queue (move) paths", n, 1)
